@@ -190,17 +190,39 @@ def enumValid (vs : List (List FTy)) (bytes : List Nat) : Bool :=
 structure UTy where
   nonZst : Bool
 
-/-- The generated `<Name>Sized` struct: the user's `sized_attributes`, then `#[repr(C, packed)]`. -/
-def sizedPartDecl (d : Decl) : Decl :=
-  { d with kind := .struct, attrs := d.attrs ++ [[.c, .packed 1]] }
+/-- The `_generics: PhantomData<fn() -> (Box<T>,)>` marker the macro adds to the sized part of a
+generic struct unless `skip_phantom_generics` is given (`phantom_generics_type`). -/
+def markerFields (skipPhantom : Bool) (d : Decl) : List Field :=
+  if d.generic && !skipPhantom then [.phantomT] else []
+
+/-- The generated `<Name>Sized` struct: the user's `sized_attributes`, then `#[repr(C, packed)]`;
+the user's sized fields, then the marker (`sized_struct`). -/
+def sizedPartDecl (skipPhantom : Bool) (d : Decl) : Decl :=
+  { d with kind := .struct, attrs := d.attrs ++ [[.c, .packed 1]],
+           fields := d.fields ++ markerFields skipPhantom d }
+
+/-- The fields in the order of the generated `…Bits` struct and of `is_valid_bit_pattern`
+(`sized_bytemuck_derives`: the marker, if any, comes FIRST there), instantiated. -/
+def sizedCheckFields (skipPhantom : Bool) (d : Decl) (x : FTy) : List FTy :=
+  (markerFields skipPhantom d ++ d.fields).map (Field.inst x)
+
+/-- `validate_fields_are_trait` of a generic sized part, under the struct's declared bound
+`T: UnsizedGenerics` (= CheckedBitPattern + Align1 + NoUninit + Zeroable): `T` and `PhantomData<T>`
+pass; `[T; N]` does not (bytemuck gives arrays `CheckedBitPattern` only through `Pod`, which the
+bound does not provide). -/
+def Field.okInGenericSized : Field → Bool
+  | .conc t => t.nouninit && t.zeroable && t.checked
+  | .param => true
+  | .arr _ => false
+  | .phantomT => true
 
 /-- Does the `…Sized` struct (with its derives / hand-written impls) compile? -/
-def sizedPart (d : Decl) : Verdict :=
-  let s := sizedPartDecl d
+def sizedPart (skipPhantom : Bool) (d : Decl) : Verdict :=
+  let s := sizedPartDecl skipPhantom d
   if deriveAlign1 s != .accept then .reject
   else if d.generic then
     -- `validate_fields_are_trait`: NoUninit + Zeroable + CheckedBitPattern on every field
-    (if d.fields.all (Field.flagAtDef (fun t => t.nouninit && t.zeroable && t.checked)) then .accept else .reject)
+    (if d.fields.all Field.okInGenericSized then .accept else .reject)
   else if bmChecked s && bmNoUninit s && bmZeroable s then .accept else .reject
 
 /-- `ZST_STATUS` of the struct for one instantiation: every element but the last must not be zero
@@ -210,10 +232,10 @@ def zstElems (d : Decl) (tail : List UTy) (x : FTy) : List Bool :=
 
 def zstOk (elems : List Bool) : Bool := elems.dropLast.all id
 
-def acceptUnsized (d : Decl) (tail : List UTy) (insts : List FTy) : Bool :=
+def acceptUnsized (skipPhantom : Bool) (d : Decl) (tail : List UTy) (insts : List FTy) : Bool :=
   d.kind == .struct &&                                              -- "Unnamed fields are not supported"
   !tail.isEmpty &&
-  (d.fields.isEmpty || (sizedPart d == .accept && rustcDefOk (sizedPartDecl d))) &&
+  (d.fields.isEmpty || (sizedPart skipPhantom d == .accept && rustcDefOk (sizedPartDecl skipPhantom d))) &&
   (!d.generic || d.usesParam) &&
   insts.all (fun x => zstOk (zstElems d tail x))
 
